@@ -88,6 +88,11 @@ func cwExec(c CCase, env *core.Env) *core.Outcome {
 
 func cwExecOnce(c CCase, env *core.Env, attempt int) *core.Outcome {
 	out := core.NewOutcome()
+	// world C keeps the reload of the per-series flush times asynchronous (started by
+	// the first write after a restart): its races with flush/merge/close are the point
+	sSyncSequencerLoad = false
+	defer func() { sSyncSequencerLoad = true }()
+	c.Knobs.FileCursor, c.Knobs.SegmentLimit = true, 65535 // product values (not configurable)
 	prop := env.Property
 	if prop == "" {
 		prop = c.Prop
@@ -697,7 +702,7 @@ func (run *cwRun) observe() *core.Violation {
 		run.cur[t] = nil
 		run.nextOp[t] = run.nextOp[t][1:]
 		if v := run.finished(tr); v != nil {
-			if v.Kind != "panic" && run.stepOver(v) {
+			if run.stepOver(v) {
 				continue // a listed finding: stepped over, the run goes on
 			}
 			return v
